@@ -76,6 +76,31 @@ def convert_unit(name: str) -> str:
         return f"{unit:unicode}"
 
 
+def convert_to_unsigned(
+    codes: np.ndarray, bit_resolution: int, dtype: "np.typing.DTypeLike"
+) -> np.ndarray:
+    """Convert float digital codes to an unsigned integer type, saturating at full scale.
+
+    The full scale ``2**bit_resolution - 1`` is not exactly representable as a float above
+    53 bit: a saturated input can then round up to ``2**bit_resolution`` which does not fit
+    into ``bit_resolution`` bits any more (and wraps around when it is converted).
+
+    Examples
+    --------
+    >>> convert_to_unsigned(np.array([0.0, 255.0]), bit_resolution=8, dtype=np.uint8)
+    array([  0, 255], dtype=uint8)
+    >>> convert_to_unsigned(np.array([0.0, 2.0**64]), bit_resolution=64, dtype=np.uint64)
+    array([                   0, 18446744073709551615], dtype=uint64)
+    """
+    codes = np.asarray(codes)
+    overflow = codes >= 2.0**bit_resolution
+
+    result = np.where(overflow, 0.0, codes).astype(dtype)
+    result[overflow] = 2**bit_resolution - 1
+
+    return result
+
+
 def get_dtype(bit_resolution: int) -> np.dtype:
     """Get NumPy data type based on a given bit resolution.
 
